@@ -9,7 +9,7 @@ use crate::debugger::debugee::dwarf::{EndianArcSlice, NamespaceHierarchy};
 use crate::debugger::error::Error;
 use crate::debugger::rust::Environment;
 use gimli::{
-    AttributeValue, DW_AT_decl_file, DW_AT_decl_line, DW_AT_language, DW_AT_linkage_name,
+    AttributeValue, DW_AT_abstract_origin, DW_AT_decl_file, DW_AT_decl_line, DW_AT_language, DW_AT_linkage_name,
     DW_AT_name, DW_AT_producer, DW_AT_specification, DebuggingInformationEntry, DwAt, Range,
     Reader, UnitHeader, UnitOffset,
 };
@@ -210,6 +210,22 @@ impl<'a> DwarfUnitParser<'a> {
                             )?;
 
                             fn_info.complete_from_decl(&decl_info);
+                        }
+
+                        // an out-of-line instance of an inlinable function carries its names
+                        // in the abstract instance root
+                        let origin = die.attr(DW_AT_abstract_origin).and_then(|attr| {
+                            if let AttributeValue::UnitRef(r) = attr.value() {
+                                return Some(r);
+                            }
+                            None
+                        });
+                        if let Some(origin_offset) = origin
+                            && fn_info.name.is_none()
+                            && let Ok(origin_die) = bs_unit.unit().entry(origin_offset)
+                        {
+                            let origin_info = fn_info_from_die(&origin_die)?;
+                            fn_info.complete_from_decl(&origin_info);
                         }
 
                         function_index.insert(die.offset(), fn_info.clone());
